@@ -20,4 +20,5 @@ INVARIANT UnionIsCoarsest
 INVARIANT UnionRepresents
 INVARIANT ReparamInvariant
 INVARIANT FastEqualsDef
+INVARIANT JavaAgreesWithDef
 CHECK_DEADLOCK FALSE
